@@ -33,7 +33,7 @@ def gen_case(rng, cfg, idx):
     if idx < 1:
         return {"kind": "negative"}
     for _ in range(30):
-        b = B.Builder(rng)
+        b = B.Builder(rng, dtype=rng.choice(["float64", "float64", "float32"]))
         shape = B.rand_shape(rng, 3, 3, 1)
         for i in range(rng.randint(1, 2)):
             b.leaf(shape if i == 0 else B.bcast_variants(rng, shape), constant=rng.choice([None, None, None, True]), lo=0.4, hi=1.8,
@@ -48,6 +48,11 @@ def gen_case(rng, cfg, idx):
         ci = calls[-1]
         if b.prog[ci]["out"] != out or not b.meta[out]["tensor"]:
             continue
+        if OT.SPECS[b.prog[ci]["fn"]].kind in ("u1", "u2") and OT.SPECS[b.prog[ci]["fn"]].npf is not None and rng.random() < 0.3:
+            # dtype= is an option every ufunc spelling (function forms, out= forms) must honour alike
+            b.prog[ci].setdefault("kw", {})["dtype"] = ["dt", rng.choice(["float32", "float64", "float16"])]
+            if b.prog[ci].get("sp") == "op":
+                b.prog[ci]["sp"] = "mg"
         Lv = b.val(out)
         seed = enc_arr(B.rand_values(rng, np.shape(Lv), 0.3, 1.5)) if np.size(Lv) else None
         return {"kind": "spell", "prog": b.prog, "ci": ci, "seed": seed, "nonconst": bool(b.meta[out]["nonconst"])}
@@ -76,8 +81,8 @@ def spellings_for(case, env_types):
             out.append("op")
     if st["fn"] in AUG_OPS and not kw and len(args) == 2 and first_t:
         out.append("aug")
-    if spec.kind in ("u1", "u2") and spec.npf is not None and "dtype" not in kw:
-        out += ["out:mg", "out:np"] if anyt else ["out:mg"]
+    if spec.kind in ("u1", "u2") and spec.npf is not None:
+        out += ["out:mg", "out:np", "outarr:mg", "outarr:np"] if anyt else ["out:mg", "outarr:mg"]
     return out
 
 
@@ -89,18 +94,32 @@ def build_variant(case, sp):
         st["sp"] = sp
     elif sp == "aug":
         x = st["a"][0][1]
-        pre = {"k": "call", "out": "__t", "fn": "multiply", "a": [["r", x], 1.0], "sp": "mg"}
+        pre = {"k": "call", "out": "__t", "fn": "multiply", "a": [["r", x], ["a", case["first_dtype"], [], [1.0]]], "sp": "mg"}
         prog[case["ci"]] = pre
         prog.append({"k": "aug", "tgt": "__t", "op": AUG_OPS[st["fn"]], "value": st["a"][1]})
         res = "__t"
+    elif sp.startswith("outarr:"):
+        prog[case["ci"]] = {"k": "leaf", "out": "__o", "kind": "array", "dtype": case["res_dtype"], "shape": case["res_shape"],
+                            "data": [0.5] * int(np.prod(case["res_shape"], dtype=int)), "layout": "C"}
+        st2 = dict(st)
+        st2["kw"] = dict(st.get("kw", {}), out=["r", "__o"])
+        st2["sp"] = sp[7:]
+        prog.append(st2)
     elif sp.startswith("out:"):
-        prog[case["ci"]] = {"k": "leaf", "out": "__u", "kind": "tensor", "dtype": "float64", "shape": case["res_shape"],
+        prog[case["ci"]] = {"k": "leaf", "out": "__u", "kind": "tensor", "dtype": case["res_dtype"], "shape": case["res_shape"],
                             "data": [0.5] * int(np.prod(case["res_shape"], dtype=int)), "constant": None, "layout": "C"}
-        prog.append({"k": "call", "out": "__t", "fn": "multiply", "a": [["r", "__u"], 1.0], "sp": "mg"})
+        prog.append({"k": "call", "out": "__t", "fn": "multiply", "a": [["r", "__u"], ["a", case["res_dtype"], [], [1.0]]], "sp": "mg"})
         prog.append({"k": "uout", "fn": st["fn"], "a": st["a"], "kw": {k: v for k, v in st.get("kw", {}).items()}, "tgt": "__t", "sp": sp[4:]})
         res = "__t"
     prog.append({"k": "backward", "tgt": res, "seed": case["seed"]})
     return prog, res
+
+
+_LAST_ENV = {}
+
+
+def prog_env_out(prog, res):
+    return _LAST_ENV.get("__o")
 
 
 def run_variant(prog, res):
@@ -108,6 +127,8 @@ def run_variant(prog, res):
     it = Interp("mg")
     with np.errstate(all="ignore"):
         it.run(prog, catch=False)
+    _LAST_ENV.clear()
+    _LAST_ENV.update({k: v for k, v in it.env.items() if k == "__o"})
     r = it.env[res]
     grads = {n: g for n, g in mgrun.snapshot_grads(it.env).items() if not n.startswith("__") and n != res}
     return r, grads, sorted(REG.opclasses)
@@ -140,12 +161,15 @@ def run_case(case):
         return {"viol": [], "skip": "non-tensor result"}
     case = dict(case)
     case["res_shape"] = list(r0.shape)
+    case["res_dtype"] = str(r0.dtype)
+    a0 = st["a"][0] if st.get("a") else None
+    case["first_dtype"] = str(pre.env[a0[1]].dtype) if (isinstance(a0, list) and a0[:1] == ["r"] and hasattr(pre.env.get(a0[1]), "dtype")) else "float64"
     sps = spellings_for(case, types)
     special_pow = fn == "power" and not isinstance(st["a"][1], list) and st["a"][1] in (1, 2, 1.0, 2.0)
     ulps = 4 if special_pow else 0
     used = ["mg"]
     for sp in sps[1:]:
-        if sp.startswith("out:") and (r0.dtype != np.float64 or r0.constant and False):
+        if sp.startswith("out") and r0.dtype.kind != "f":
             continue
         if sp == "aug" and (list(r0.shape) != list(pre.env[st["a"][0][1]].shape) or pre.env[st["a"][0][1]].dtype != r0.dtype
                             or pre.env[st["a"][0][1]].constant):
@@ -163,6 +187,10 @@ def run_case(case):
             viol.append({"monitor": "O-meta", "mech": f"not-a-tensor:{fn}:{sp}", "msg": f"{fn} via {sp} returned {type(r).__name__}"})
             continue
         inplace = sp == "aug" or sp.startswith("out:")
+        if sp.startswith("outarr:"):
+            oa = prog_env_out(prog, res)
+            if oa is not None and (oa.dtype != r0.dtype or not np.array_equal(oa, r0.data, equal_nan=True)):
+                viol.append({"monitor": "O-meta", "mech": f"value:{fn}:{sp}:array", "msg": f"{fn}: the out= array holds {oa.ravel()[:4]} {oa.dtype}; mg gives {r0.data.ravel()[:4]} {r0.dtype}"})
         if r.dtype != r0.dtype or r.shape != r0.shape or not (np.array_equal(r.data, r0.data, equal_nan=True) or ulp_close(r.data, r0.data, ulps)):
             viol.append({"monitor": "O-meta", "mech": f"value:{fn}:{sp}", "msg": f"{fn}: mg gives {r0.data.ravel()[:4]} {r0.dtype}; {sp} gives {r.data.ravel()[:4]} {r.dtype}"})
         if not inplace and r.constant != r0.constant:
